@@ -56,6 +56,9 @@ impl End {
     fn fields(&self) -> [u32; 12] {
         self.btp.verif_state().0
     }
+    fn sdu_len(&self) -> usize {
+        self.btp.verif_state().1
+    }
 }
 
 struct World {
@@ -648,6 +651,155 @@ fn gen_link(r: &mut Rng, out: &mut Out, thorough: bool) -> (String, Vec<(String,
     (kind, g.ops, nt)
 }
 
+/// wrap stream (kind `l`, scripted with random parameters): two well-behaved ends; the sender `x`
+/// is fast-forwarded (bursts of segments, everything acknowledged in between) until its sequence
+/// number is `j` short of the 255 -> 0 wrap-around; then it sends on across the wrap while the
+/// acknowledgements lag behind: the peer has received only `i` of the segments (mostly ones sent
+/// BEFORE the wrap) when it acknowledges, that partial acknowledgement reaches the sender after it
+/// has already sent PAST the wrap, and the sender then fills its whole window while the peer
+/// sends no further acknowledgement (it is not polled, or it withholds them because its application
+/// has not fetched). Several wraps per case.
+fn gen_wrap(r: &mut Rng, out: &mut Out, thorough: bool) -> (String, Vec<(String, String)>, bool) {
+    let ga = *r.pick(&[0u16, 23, 32, 64, 100, 185, 247, 247]);
+    let relaxed_b = r.chance(1, 2);
+    let kind = format!("l 1 0 {} {} 0 {}", ga, ga, relaxed_b as u8);
+    let mut g = Gen { w: World::new(&kind), ops: Vec::new(), out, n_ok: 0, n_err: 0, n_msg: 0, n_tx: 0 };
+    g.op("poll a".into());
+    if r.chance(1, 2) {
+        let win = *r.pick(&[3u64, 3, 4, 5, 6, 7, 9, 20]);
+        g.op(format!("hsw b {}", win));
+    }
+    g.op("dlv b".into());
+    g.op("poll b".into());
+    g.op("dlv a".into());
+    let mtu = g.w.a.fields()[0] as usize;
+    let win = g.w.a.fields()[1] as usize;
+    g.out.stat(&format!("wrap_win_{}", win), 1);
+    if win < 3 || mtu < 20 {
+        return (kind, g.ops, false);
+    }
+    let alive = |g: &Gen| !g.w.a.dead && !g.w.b.dead;
+    // `n` polls of `x`, an SDU is queued whenever none is in progress; returns the segments emitted
+    fn pump(g: &mut Gen, r: &mut Rng, x: &str, n: usize, mtu: usize, tiny: bool) -> usize {
+        let mut sent = 0;
+        for _ in 0..n {
+            let idle = if x == "a" { g.w.a.sdu_len() == 0 } else { g.w.b.sdu_len() == 0 };
+            if idle {
+                let len = if tiny { r.range(1, (mtu as u64).saturating_sub(6).max(1)) as usize } else { r.range(mtu as u64, 1232) as usize };
+                let m = r.bytes(len);
+                g.op(format!("send {} {}", x, hex(&m)));
+            }
+            if g.op(format!("poll {}", x)).starts_with("tx") {
+                sent += 1;
+            } else {
+                break;
+            }
+        }
+        sent
+    }
+    fn drain_to(g: &mut Gen, y: &str, n: usize) {
+        for _ in 0..n {
+            if g.op(format!("dlv {}", y)) == "empty" {
+                break;
+            }
+        }
+    }
+    fn fetch_all(g: &mut Gen, y: &str) {
+        for _ in 0..64 {
+            if !g.op(format!("fetch {} 2048", y)).starts_with("msg") {
+                break;
+            }
+        }
+    }
+    // everything in flight delivered and fetched, `x`'s segments acknowledged (`rounds` = 1), and
+    // the peer's too (`rounds` = 2)
+    fn settle(g: &mut Gen, x: &str, y: &str, rounds: usize) {
+        for k in 0..rounds {
+            drain_to(g, y, 400);
+            fetch_all(g, y);
+            g.op("tick 15".into());
+            g.op(format!("poll {}", y));
+            drain_to(g, x, 400);
+            fetch_all(g, x);
+            if k + 1 < rounds {
+                g.op("tick 15".into());
+                g.op(format!("poll {}", x));
+            }
+        }
+    }
+    let wraps = if thorough { r.range(3, 8) } else { r.range(2, 3) };
+    let mut hunted = 0usize;
+    for _ in 0..wraps {
+        if !alive(&g) {
+            break;
+        }
+        let (x, y) = if r.chance(3, 4) { ("a", "b") } else { ("b", "a") };
+        let last = |g: &Gen| (if x == "a" { g.w.a.fields()[5] } else { g.w.b.fields()[5] }) as usize;
+        // how far before the wrap the lagging phase starts, how many segments the sender puts in
+        // flight across the wrap (t <= win - 1), how many of them the peer has when it acknowledges
+        let j = r.range(0, (win - 2).min(12) as u64) as usize;
+        let target = 255 - j;
+        let tiny = r.chance(1, 3);
+        // fast-forward: bursts, everything acknowledged in between
+        for _ in 0..400 {
+            let dist = (target + 256 - last(&g)) % 256;
+            if dist == 0 || !alive(&g) {
+                break;
+            }
+            let burst = dist.min((win - 1).max(1)).min(r.range(1, 40) as usize);
+            pump(&mut g, r, x, burst, mtu, tiny);
+            settle(&mut g, x, y, 1);
+        }
+        if last(&g) != target || !alive(&g) {
+            continue;
+        }
+        let m = r.range(0, (win - 2 - j.min(win - 2)) as u64) as usize;
+        let t = (j + 1 + m).min(win - 1);
+        let i = match r.below(6) {
+            0 => r.range(1, t as u64) as usize, // sometimes an acknowledgement from beyond the wrap
+            _ => r.range(1, (j + 1).min(t) as u64) as usize,
+        };
+        let sent = pump(&mut g, r, x, t, mtu, tiny);
+        drain_to(&mut g, y, i.min(sent));
+        fetch_all(&mut g, y);
+        g.op("tick 15".into());
+        g.op(format!("poll {}", y)); // the partial acknowledgement (stand-alone, or on a data segment)
+        drain_to(&mut g, x, 4); // ... reaches the sender after it has sent past the wrap
+        fetch_all(&mut g, x);
+        g.op(format!("due {}", x));
+        // the sender fills its window; the peer sends no further acknowledgement: either what the
+        // sender emits stays in flight (acknowledgements lag), or the peer receives it but its
+        // application does not fetch (complete messages waiting: acknowledgements are withheld).
+        // The last send slot is only used for a segment that carries an acknowledgement, so the
+        // peer sends data segments of its own (without acknowledgement) in between.
+        let withhold = r.chance(1, 2);
+        let fill_tiny = tiny || withhold;
+        for _ in 0..r.range(2, 3) {
+            for _ in 0..(win + 3) {
+                if pump(&mut g, r, x, 1, mtu, fill_tiny) == 0 {
+                    break;
+                }
+                if withhold && r.chance(2, 3) {
+                    g.op(format!("dlv {}", y));
+                }
+            }
+            if withhold {
+                drain_to(&mut g, y, r.range(0, 6) as usize);
+            }
+            pump(&mut g, r, y, 1, mtu, true);
+            drain_to(&mut g, x, 8);
+            fetch_all(&mut g, x);
+        }
+        pump(&mut g, r, x, 2, mtu, fill_tiny);
+        drain_to(&mut g, y, 400);
+        hunted += 1;
+        settle(&mut g, x, y, 2);
+    }
+    g.out.stat("wrap_phases", hunted as u64);
+    let nt = g.n_msg >= 1 && g.n_tx >= 4 && hunted >= 1;
+    (kind, g.ops, nt)
+}
+
 fn emit(out: &mut Out, id: u64, kind: &str, ops: &[(String, String)], nt: bool) {
     out.case(id, kind);
     for (op, o) in ops {
@@ -664,7 +816,7 @@ pub fn gen(a: &Args) -> String {
     }
     let mut r = Rng::new(a.seed);
     let mut out = Out::default();
-    out.buf.push_str("#rule kind h: one real Btp end (responder or initiator, strict/relaxed MTU, various GATT MTUs) fed by a generated hostile peer: noise before the handshake, handshake requests/responses with boundary mtu/window values and mutations, then nearly valid data/ack segments built from the end's real state (right/wrong sequence number, valid/stale/bogus acknowledgement, single- and multi-segment SDUs with right/wrong lengths and flags, window overrun, repeated handshakes), interleaved with send/poll/fetch/tick; kind r: the real RingBuf<N> (N in 1..3166) driven directly with pushes (0..2N+3 bytes, overflow), pops, push_byte/pop_byte/clear in four fill profiles; kind l: two real Btp ends joined by FIFO queues under a random schedule of send/poll/deliver/fetch/tick with message lengths 0..1233 around the segment size, six scheduler profiles incl. long runs (sequence wrap) and slow applications (withheld acks, ack timers); non-trivial = (h) at least one segment accepted and one refused, (l) at least one message fetched and four segments sent, (r) at least one pop handed out bytes; distinct = by operation list\n");
+    out.buf.push_str("#rule kind h: one real Btp end (responder or initiator, strict/relaxed MTU, various GATT MTUs) fed by a generated hostile peer: noise before the handshake, handshake requests/responses with boundary mtu/window values and mutations, then nearly valid data/ack segments built from the end's real state (right/wrong sequence number, valid/stale/bogus acknowledgement, single- and multi-segment SDUs with right/wrong lengths and flags, window overrun, repeated handshakes), interleaved with send/poll/fetch/tick; kind r: the real RingBuf<N> (N in 1..3166) driven directly with pushes (0..2N+3 bytes, overflow), pops, push_byte/pop_byte/clear in four fill profiles; kind l: two real Btp ends joined by FIFO queues under a random schedule of send/poll/deliver/fetch/tick with message lengths 0..1233 around the segment size, six scheduler profiles incl. long runs (sequence wrap) and slow applications (withheld acks, ack timers), plus (every 50th case) the scripted wrap profile: the sender is fast-forwarded to j segments before the 255->0 wrap-around of its sequence number, sends on across the wrap while acknowledgements lag by 1..window-1 segments (a partial acknowledgement from before the wrap arrives after a segment from beyond it), then fills its whole window while the peer sends no acknowledgement (not polled / application not fetching), several wraps per case, windows 3..79; non-trivial = (h) at least one segment accepted and one refused, (l) at least one message fetched and four segments sent, (r) at least one pop handed out bytes; distinct = by operation list\n");
     let n_cases = if a.thorough { 9000 } else { 3000 };
     for id in 0..n_cases {
         let mut cr = r.fork();
@@ -692,6 +844,10 @@ pub fn gen(a: &Args) -> String {
             }
             out.stat(&format!("ring_n_{}", cap), 1);
             (kind, ops, popped >= 1)
+        } else if id % 50 == 7 {
+            out.stat("kind_l", 1);
+            out.stat("kind_l_wrap", 1);
+            gen_wrap(&mut cr, &mut out, a.thorough)
         } else if cr.chance(1, 2) {
             out.stat("kind_h", 1);
             gen_hostile(&mut cr, &mut out, id, a.thorough)
